@@ -762,8 +762,14 @@ func c08(cx *Ctx, r *ev.Report) {
 	}
 	sites := rules.Writers(zfns, rules.SuffixMatch("HALT"))
 	ruleW := "R-WRITERS(HALT): the halted indication is stored only by Run's entry (false) and by functions below the decoder"
+	reach := reachableFromStepOrRun(cx)
 	for _, s := range sites {
 		key := fmt.Sprintf("C08/halt-writers/func=%s", s.Fn)
+		if !reach[s.Fn] {
+			// a helper the user has to call himself (a Reset method, say): it cannot act while Step or Run execute
+			r.Hold(key, ruleW+" (not reachable from Step or Run: acts only when the user calls it)", cx.P.Pos(s.Pos.Pos()), "shape")
+			continue
+		}
 		ok := s.Fn == ri.run || below[s.Fn.String()]
 		r.Check(ok, key, ruleW, cx.P.Pos(s.Pos.Pos()), "shape", fmt.Sprintf("%s writes CPU.HALT (%s) outside instruction execution", s.Fn, s.Kind))
 	}
@@ -790,4 +796,32 @@ func c08(cx *Ctx, r *ev.Report) {
 func isNilConst(v ssa.Value) bool {
 	c, ok := v.(*ssa.Const)
 	return ok && c.Value == nil
+}
+
+// reachableFromStepOrRun: the module functions that can execute during a call
+// of Step or Run (static calls, function literals, methods of module types -
+// rules.DAG), including Step and Run themselves.
+func reachableFromStepOrRun(cx *Ctx) map[*ssa.Function]bool {
+	out := map[*ssa.Function]bool{}
+	var add func(fn *ssa.Function)
+	add = func(fn *ssa.Function) {
+		if fn == nil || out[fn] {
+			return
+		}
+		out[fn] = true
+		for _, af := range fn.AnonFuncs {
+			add(af)
+		}
+	}
+	roots := []*ssa.Function{cx.E.Step}
+	if run := cx.P.Method(load.ModulePath, "CPU", "Run"); run != nil {
+		roots = append(roots, run)
+	}
+	for _, root := range roots {
+		add(root)
+		for _, f := range rules.DAG(cx.P, root).Funcs {
+			add(f)
+		}
+	}
+	return out
 }
